@@ -122,6 +122,12 @@ type State struct {
 	Pool    []Handle
 	PoolCap int
 	NoMixed bool // skip operations that would give a node named keys and list elements at once (C15)
+	// LooseEmpty: the history has brought an empty list to a place where the statement does not say whether
+	// what results is a list (an empty list merged into a nil or into a container without a list part, a
+	// config made from a top-level empty list, an empty list handed over as a *Config made from it). From
+	// then on "a node without a list part is no list" is not decidable from the model any more; "a list
+	// stays a list" (model.Node.IsList) always is.
+	LooseEmpty bool
 
 	ring    int
 	seq     int
@@ -144,6 +150,12 @@ type Info struct {
 	Retired   int    // handles retired (merge reached their subtree / re-attachment)
 	Pooled    bool   // a handle was added to the pool
 	Receiver  Handle
+	// empty lists (model.Node.IsList with 0 elements)
+	Emptied      bool // a removal took the last remaining element of a list
+	BelowEmpty   bool // the operation addressed a setting directly below a list with 0 elements (refill, removal, read of nothing)
+	RecvEmpty    bool // the receiver itself was a list with 0 elements (and no named keys) when the operation started
+	EmptyHandle  bool // Child: the handle that was pooled is a view of a list with 0 elements
+	EmptyBrought bool // SetChild/Merge: the tree brought in contains a list with 0 elements
 	// merges
 	Source      string         // merge: FromData ("data"), FromRepr, FromConfig, FromHandle ("handle: root", "handle: child", "handle: stand-alone")
 	SrcInTarget bool           // merge from a handle that is a descendant of the receiver
@@ -172,7 +184,9 @@ func New(c Case, noMixed bool) (*State, bool, error) {
 		if !c.Init.IsCont() {
 			return nil, false, nil
 		}
-		model.MergeCont(model.Default, nil, m, model.FromTree(c.Init))
+		from := model.FromTreeLists(c.Init)
+		s.LooseEmpty = model.EmptyListMeets(model.Default, m, from)
+		model.MergeCont(model.Default, nil, m, from)
 		if noMixed && m.Mixed() {
 			return nil, false, nil
 		}
@@ -287,11 +301,30 @@ func (s *State) sides(h Handle, segs []model.Seg, old *model.Node, info *Info) {
 	}
 }
 
-func treeModel(t *gen.Tree) *model.Node {
+// treeModel is the model of NewFrom(t): a new config with t merged in. The
+// second result reports that t is an empty list at its top level (whether the
+// config is a list then is not stated).
+func treeModel(t *gen.Tree) (*model.Node, bool) {
 	m := model.NewCont()
-	model.MergeCont(model.Default, nil, m, model.FromTree(t))
-	return m
+	from := model.FromTreeLists(t)
+	loose := model.EmptyListMeets(model.Default, m, from)
+	model.MergeCont(model.Default, nil, m, from)
+	return m, loose
 }
+
+// emptyListAsConfig: the representations chosen for the tree hand an empty
+// list over as a *Config made from it.
+func emptyListAsConfig(t *gen.Tree) bool {
+	found := false
+	t.Walk(nil, func(_ []string, n *gen.Tree) {
+		if n.K == "list" && len(n.Vals) == 0 && n.R%gen.NRepr == 3 {
+			found = true
+		}
+	})
+	return found
+}
+
+func isEmptyList(n *model.Node) bool { return n != nil && n.IsList() && len(n.A) == 0 }
 
 func setPrim(c *ucfg.Config, name string, idx int, v *gen.Tree, opts []ucfg.Option) error {
 	return uc.Safe("Set", func() error {
@@ -365,6 +398,12 @@ func (s *State) Apply(op Op) (Info, error) {
 	}
 	what := fmt.Sprintf("%s on handle #%d", op, h.ID)
 	segs := model.ParseAddr(op.Name, op.Idx, s.Sep)
+	info.RecvEmpty = h.M.IsEmptyList()
+	if op.Kind != Merge {
+		if par, err := h.M.Lookup(segs[:len(segs)-1]); err == nil && isEmptyList(par) {
+			info.BelowEmpty = true
+		}
+	}
 	switch op.Kind {
 	case Set:
 		if op.Val == nil || !op.Val.IsPrim() {
@@ -399,7 +438,7 @@ func (s *State) Apply(op Op) (Info, error) {
 			info.Skipped = "setchild without a tree"
 			return info, nil
 		}
-		m := treeModel(op.Val)
+		m, loose := treeModel(op.Val)
 		if s.NoMixed {
 			cp := h.M.Copy()
 			if _, err := cp.SetPath(segs, m.Copy()); err == nil && cp.Mixed() {
@@ -407,6 +446,10 @@ func (s *State) Apply(op Op) (Info, error) {
 				return info, nil
 			}
 		}
+		if loose {
+			s.LooseEmpty = true
+		}
+		info.EmptyBrought = model.HasEmptyList(op.Val)
 		var fresh *ucfg.Config
 		if err := uc.Safe("NewFrom", func() error {
 			var e error
@@ -442,10 +485,11 @@ func (s *State) Apply(op Op) (Info, error) {
 		info.Pooled = true
 
 	case Remove:
-		shift := false
+		shift, emptied := false, false
 		if last := segs[len(segs)-1]; last.IsIdx {
-			if par, err := h.M.Lookup(segs[:len(segs)-1]); err == nil && par.Kind == "cont" && last.Idx < len(par.A)-1 {
-				shift = true
+			if par, err := h.M.Lookup(segs[:len(segs)-1]); err == nil && par.Kind == "cont" {
+				shift = last.Idx < len(par.A)-1
+				emptied = last.Idx == 0 && len(par.A) == 1
 			}
 		}
 		removed, old, merr := h.M.RemovePath(segs)
@@ -466,7 +510,7 @@ func (s *State) Apply(op Op) (Info, error) {
 			return info, fmt.Errorf("%s: Remove returned %v, the model says %v", what, got, removed)
 		}
 		if removed {
-			info.Wrote, info.Shifted = true, shift
+			info.Wrote, info.Shifted, info.Emptied = true, shift, emptied
 			info.Overlap = s.containsWritten(old)
 			s.sides(h, segs, old, &info)
 		}
@@ -546,7 +590,12 @@ func (s *State) Apply(op Op) (Info, error) {
 			}); err != nil {
 				return info, fmt.Errorf("%s: NewFrom(tree) failed: %v", what, err)
 			}
-			from, src, isCfg = treeModel(op.Val), fresh, true
+			var loose bool
+			from, loose = treeModel(op.Val)
+			if loose {
+				s.LooseEmpty = true
+			}
+			src, isCfg = fresh, true
 			srcHandle = &Handle{C: fresh, M: from}
 			info.Source = "fresh *Config"
 		case FromRepr:
@@ -563,17 +612,26 @@ func (s *State) Apply(op Op) (Info, error) {
 			}); err != nil {
 				return info, fmt.Errorf("%s: building the Go representation of the tree failed: %v", what, err)
 			}
-			from, src = model.FromTree(op.Val), v
+			from, src = model.FromTreeLists(op.Val), v
+			if emptyListAsConfig(op.Val) {
+				// such a config is an empty config and no list: no list marks for this tree at all
+				from, s.LooseEmpty = model.FromTree(op.Val), true
+			}
 			info.Source = "mixed Go representations"
 		default:
 			if op.Val == nil || !op.Val.IsCont() {
 				info.Skipped = "merge without a tree"
 				return info, nil
 			}
-			from, src = model.FromTree(op.Val), op.Val.Go()
+			from, src = model.FromTreeLists(op.Val), op.Val.Go()
 			info.Source = "generic data"
 		}
 		info.SrcList, info.SrcDict = len(from.A) > 0, len(from.D) > 0
+		from.Walk(nil, func(_ []model.Seg, n *model.Node) {
+			if isEmptyList(n) {
+				info.EmptyBrought = true
+			}
+		})
 		if s.NoMixed {
 			cp := h.M.Copy()
 			model.MergeCont(op.Policy, nil, cp, from)
@@ -605,6 +663,9 @@ func (s *State) Apply(op Op) (Info, error) {
 		var before map[*model.Node]bool
 		if isCfg {
 			before = nodeSet(h.M)
+		}
+		if model.EmptyListMeets(op.Policy, h.M, from) {
+			s.LooseEmpty = true
 		}
 		model.MergeCont(op.Policy, nil, h.M, from)
 		opts := append(append([]ucfg.Option{}, s.Opts...), uc.PolicyOpts(op.Policy)...)
@@ -660,6 +721,7 @@ func (s *State) Apply(op Op) (Info, error) {
 		}
 		s.pool(Handle{C: ch, M: n})
 		info.Pooled = true
+		info.EmptyHandle = isEmptyList(n)
 
 	case Reattach:
 		if len(s.Pool) == 0 {
@@ -817,6 +879,32 @@ type GenCfg struct {
 	// Seps: the separators given to PathSep (empty: always "."). Names are generated with "." and
 	// rewritten, so none of the separators may occur in Names or in the keys of the trees.
 	Seps []string
+	// Drain (out of 10): chance that a removal which addresses a list element is followed by 1-3 more
+	// removals from the same list through the same receiver (at index 0, or at the same index again), so
+	// that lists lose their last remaining element; the list's address joins the addresses later
+	// operations and reads are steered to (refill, padding write, Child, removal of the empty list, merges)
+	Drain int
+}
+
+// listOf splits an address that denotes a list element into the address of the
+// list and the index: an explicit index, or (dotted) a last name segment that
+// is a plain decimal index.
+func listOf(a Addr, dotted bool) (string, int, bool) {
+	if a.Idx >= 0 {
+		return a.Name, a.Idx, true
+	}
+	if !dotted {
+		return "", 0, false
+	}
+	k := strings.LastIndex(a.Name, ".")
+	if k <= 0 {
+		return "", 0, false
+	}
+	i, err := strconv.Atoi(a.Name[k+1:])
+	if err != nil || i < 0 || i > 64 || strconv.Itoa(i) != a.Name[k+1:] {
+		return "", 0, false
+	}
+	return a.Name[:k], i, true
 }
 
 // GenAddr draws an address from the pool.
@@ -1050,6 +1138,7 @@ func Gen(t *rapid.T, g *GenCfg) Case {
 		if op.H > 0 {
 			pool = &usedVia
 		}
+		var drainAddr Addr
 		if kind != Merge {
 			var a Addr
 			switch {
@@ -1066,6 +1155,7 @@ func Gen(t *rapid.T, g *GenCfg) Case {
 				a = GenAddr(t, g, "")
 			}
 			op.Name, op.Idx = a.Name, a.Idx
+			drainAddr = a
 			if kind == Set || kind == SetChild || kind == Reattach {
 				*pool = append(*pool, a)
 			}
@@ -1140,6 +1230,26 @@ func Gen(t *rapid.T, g *GenCfg) Case {
 		}
 		respellKeys(t, g, op.Val)
 		c.Ops = append(c.Ops, op)
+		if kind == Remove && g.Drain > 0 {
+			if list, idx, ok := listOf(drainAddr, c.PathSep); ok && rapid.IntRange(0, 9).Draw(t, "drain") < g.Drain {
+				for k := rapid.IntRange(1, 3).Draw(t, "drains"); k > 0; k-- {
+					more := Op{Kind: Remove, H: op.H, Name: list, Idx: 0}
+					if idx > 0 && rapid.IntRange(0, 2).Draw(t, "drainsame") == 0 {
+						more.Idx = idx
+					}
+					if g.Respell > 0 {
+						sp := spell(t, g, more.Addr(), c.PathSep, "drain")
+						more.Name, more.Idx = sp.Name, sp.Idx
+					}
+					c.Ops = append(c.Ops, more)
+				}
+				if op.H == 0 {
+					used = append(used, Addr{list, 0})
+				} else {
+					usedVia = append(usedVia, Addr{list, 0})
+				}
+			}
+		}
 	}
 	respellKeys(t, g, c.Init)
 	all := append(append([]Addr{}, used...), usedVia...)
